@@ -365,10 +365,38 @@ def k_badfmt(ctx):
             ctx.check("unknown-format-rejected", True)
 
 
+TRICKY = ["/data/map.zip", "/data/pop.quiz.zip", "/data/radii.zip", "/data/a..zip", "/data/x.gz.gz", "/data/zip.zip",
+          "/data/b2.bz2", "/data/x.xz", "/data/zz.xz", "/data/g.gz", "/data/dir.zip/member.nc.bz2"]
+
+
+@harness("C12.roundtrip", cases=lambda tier: TRICKY + ["/data/a.b.nc." + f for f in FORMATS],
+         expect=lambda c: ["decompress-after-compress-yields-the-payload", "no-temporary-debris"])
+def k_roundtrip(ctx):
+    """fault-free composition on awkward names (base names ending in characters of the suffix,
+    double suffixes, dots): what compress() stores, decompress() finds again."""
+    name = ctx.case
+    env = _Env(ctx, max_faults=0)
+    fs = env.fs
+    seen = None
+    with env.patch():
+        with U.compress(name) as tfile:
+            with fs.open(tfile, "wb") as f:
+                f.write(PAYLOAD[0])
+                f.write(PAYLOAD[1])
+        ctx.check("archive-created", name in fs.files)
+        try:
+            with U.decompress(name) as path:
+                seen = fs.files.get(path)
+        except (KeyError, OSError) as e:
+            seen = "raised %r" % (e,)
+    ctx.check("decompress-after-compress-yields-the-payload", seen == PAYLOAD, detail="%s -> %r" % (name, seen))
+    ctx.check("no-temporary-debris", not _debris(fs) and sorted(fs.files) == [name])
+
+
 PLAN = {
-    "quick": {"harnesses": ["C12.compress", "C12.decompress", "C12.passthrough", "C12.bad-format"],
+    "quick": {"harnesses": ["C12.compress", "C12.decompress", "C12.roundtrip", "C12.passthrough", "C12.bad-format"],
               "opts": {"query_timeout_ms": 5000}},
-    "thorough": {"harnesses": ["C12.compress", "C12.decompress", "C12.passthrough", "C12.bad-format"],
+    "thorough": {"harnesses": ["C12.compress", "C12.decompress", "C12.roundtrip", "C12.passthrough", "C12.bad-format"],
                  "opts": {"query_timeout_ms": 5000}},
 }
 BOUNDS = {"quick": {"dispatch (CrossHair)": "every file name (any characters) of length <= 5; every fmt= argument of length <= 4",
